@@ -370,7 +370,7 @@ def b_broadcast(ctx):
     from pylife.materiallaws import WoehlerCurve   # noqa
     rng = np.random.default_rng(ctx.seed + ctx.shard)
     n = 40 if ctx.tier == 'quick' else 400
-    ctx.bound = f"{n} random curve sets (k_1 in (1,12], k_2 in {{k_1.., inf}}, SD, ND, TN, TS >= 1, p in (0,1)) x 4 operand layouts"
+    ctx.bound = f"{n} random curve sets (k_1 in (1,12], k_2 in {{k_1.., inf}}, SD, ND, TN, TS >= 1, p in (0,1)) x 4 operand layouts; scalar operands as python int / numpy integer / float / list / integer array"
     ctx.rule = "non-trivial: loads on both sides of the endurance limit"
     for it in range(n):
         m = 3
@@ -405,6 +405,26 @@ def b_broadcast(ctx):
                 back = float(s.woehler.load(v, p))
                 if abs(back - x) > 1e-8 * x:
                     ctx.fail('C08:inverse', f'load(cycles({x})) = {back}', {'curve': s.to_dict(), 'p': p})
+        # operand types: the same number as python int, numpy integer, float, list and integer array must give the same value (cycle numbers and loads are
+        # naturally whole numbers; added after seed C08-b let the slope array inherit the integer dtype of the operand)
+        for Nint in (int(s.ND // 100), int(s.ND * 7)):
+            vals = {}
+            for tname, arg in (('int', Nint), ('np.int64', np.int64(Nint)), ('float', float(Nint)), ('list', [Nint]), ('int array', np.array([Nint]))):
+                try:
+                    vals[tname] = float(np.ravel(s.woehler.load(arg, p))[0])
+                except Exception as e:   # noqa
+                    vals[tname] = f'{type(e).__name__}'
+            if any(isinstance(v, str) or not (v == vals['float'] or abs(v - vals['float']) <= 1e-9 * abs(vals['float'])) for v in vals.values()):
+                ctx.fail('C08:operand-type:load', f'load({Nint}) depends on the type of the cycle number: {vals}', {'curve': s.to_dict(), 'N': Nint, 'p': p})
+        for Lint in (int(s.SD * 2), max(1, int(s.SD // 2))):
+            vals = {}
+            for tname, arg in (('int', Lint), ('np.int64', np.int64(Lint)), ('float', float(Lint)), ('list', [Lint]), ('int array', np.array([Lint]))):
+                try:
+                    vals[tname] = float(np.ravel(s.woehler.cycles(arg, p))[0])
+                except Exception as e:   # noqa
+                    vals[tname] = f'{type(e).__name__}'
+            if any(isinstance(v, str) or not (v == vals['float'] or abs(v - vals['float']) <= 1e-9 * abs(vals['float'])) for v in vals.values()):
+                ctx.fail('C08:operand-type:cycles', f'cycles({Lint}) depends on the type of the load: {vals}', {'curve': s.to_dict(), 'load': Lint, 'p': p})
         p1, p2 = rng.uniform(0.02, 0.98, 2)
         a = s.woehler.transform_to_failure_probability(p1).transform_to_failure_probability(p2).to_pandas()
         b = s.woehler.transform_to_failure_probability(p2).to_pandas()
